@@ -317,6 +317,16 @@ var topRules = []topRule{
 	// expression in parentheses - and nowhere else
 	{name: "parenthesised-any-in-annotated-let", good: "fn main() { let o = new { ? }; o.set(\"k\", 5); let v: int = (o[\"k\"]); let w: int = ((o[\"k\"])); println(v, w); }\n", bad: "fn main() { let o = new { ? }; o.set(\"k\", 5); let v = (o[\"k\"]); println(1); }\n"},
 	{name: "parenthesised-any-cast-operand", good: "fn main() { let c = (\"7\".parse_json()) as int; let d = ((\"8\".parse_json())) as int; println(c, d); }\n", bad: "fn main() { println((\"7\".parse_json())); }\n"},
+	// a loop that can be left by `break` is not diverging, also when another loop follows the break inside of it
+	{name: "loop-break-before-nested-for", good: helpers + "fn pick(stop: bool) -> int { loop { if stop { break; } for i in 0..2 { println(i); } return 7; } 0 }\nfn main() { println(pick(true)); }\n", bad: helpers + "fn pick(stop: bool) -> int { loop { if stop { break; } for i in 0..2 { println(i); } return 7; } }\nfn main() { println(pick(true)); }\n"},
+	{name: "loop-break-before-nested-while", good: helpers + "fn pick(stop: bool) -> int { loop { if stop { break; } let k = 0; while k < 2 { k += 1; } return 7; } 0 }\nfn main() { println(pick(true)); }\n", bad: helpers + "fn pick(stop: bool) -> int { loop { if stop { break; } let k = 0; while k < 2 { k += 1; } return 7; } }\nfn main() { println(pick(true)); }\n"},
+	{name: "loop-break-before-nested-loop-with-own-break", good: helpers + "fn pick(stop: bool) -> int { loop { if stop { break; } loop { break; } return 7; } 0 }\nfn main() { println(pick(true)); }\n", bad: helpers + "fn pick(stop: bool) -> int { loop { if stop { break; } loop { break; } return 7; } }\nfn main() { println(pick(true)); }\n"},
+	// faults in the RETURN type of a function definition
+	{name: "unknown-return-type", good: "type Known = int;\nfn f() -> Known { 1 }\nfn main() { println(f()); }\n", bad: "fn f() -> Missing { 1 }\nfn main() { println(f()); }\n"},
+	{name: "unknown-return-type-nested", good: "type Known = int;\nfn f() -> [Known] { [1] }\nfn main() { println(f()); }\n", bad: "fn f() -> [Missing] { [1] }\nfn main() { println(f()); }\n"},
+	{name: "unknown-return-type-field", good: "fn f() -> { x: int, y: str } { new { x: 1, y: \"s\" } }\nfn main() { println(f().x); }\n", bad: "fn f() -> { x: int, y: Missing } { new { x: 1, y: 2 } }\nfn main() { println(f().x); }\n"},
+	{name: "duplicate-field-in-return-type", good: "fn f() -> { x: int, y: int } { new { x: 1, y: 2 } }\nfn main() { println(f().x); }\n", bad: "fn f() -> { x: int, x: int } { new { x: 1 } }\nfn main() { println(f().x); }\n"},
+	{name: "unknown-return-type-of-main", good: "fn main() -> null { println(1); }\n", bad: "fn main() -> Missing { println(1); }\n"},
 	{name: "duplicate-parameter-singleton-and-normal", good: "$S = { n: int };\nfn f(a: $S, b: int) -> int { a.n + b }\nfn main() { println(f(1)); }\n", bad: "$S = { n: int };\nfn f(a: $S, a: int) -> int { a.n }\nfn main() { println(f(1)); }\n"},
 	{name: "duplicate-parameter-two-singletons", good: "$S = { n: int };\n$T = { m: int };\nfn f(a: $S, b: $T) -> int { a.n + b.m }\nfn main() { println(f()); }\n", bad: "$S = { n: int };\n$T = { m: int };\nfn f(a: $S, a: $T) -> int { a.n }\nfn main() { println(f()); }\n"},
 	{name: "duplicate-parameter", good: "fn f(a: int, b: int) -> int { a + b }\nfn main() { println(f(1, 2)); }\n", bad: "fn f(a: int, a: int) -> int { a }\nfn main() { println(f(1, 2)); }\n"},
